@@ -896,16 +896,21 @@ def _copies(R, tier, rnd):
         for o in octs:
             for d in dyn:
                 for k, op in enumerate(note_ops):
-                    for direction in ("copy", "source"):
+                    for direction in ("copy", "source", "copy.copy", "copy.deepcopy", "copy.deepcopy([note])[0]"):
                         src = Note(n, o, **d)
-                        ok, cp = R.guard("Note(note)", C_COPY, (n, o, d), lambda: Note(src))
+                        # the library's own way of copying, and the language's (a library class may define how it is copied)
+                        mk = {"copy.copy": lambda: copy.copy(src), "copy.deepcopy": lambda: copy.deepcopy(src),
+                              "copy.deepcopy([note])[0]": lambda: copy.deepcopy([src])[0]}.get(direction, lambda: Note(src))
+                        how = direction if direction.startswith("copy.") else "Note(note)"
+                        ok, cp = R.guard("Note(note)", C_COPY, (n, o, d, how), mk)
                         if not ok:
                             continue
                         R.case("Note(note)", (n, o, tuple(sorted(d.items())), k, direction))
-                        edited, other = (cp, src) if direction == "copy" else (src, cp)
+                        edited, other = (src, cp) if direction == "source" else (cp, src)
                         before = T.state_attrs(other)
                         if cp is src:
-                            R.fail("Note(note)", C_COPY, "Note(note) returned the note itself", (n, o, d))
+                            R.fail("Note(note)", C_COPY, "%s returned the note itself" % how, (n, o, d, how))
+                            continue
                         r2 = random.Random(k * 7919 + o)
                         try:
                             op(edited, r2)
